@@ -31,11 +31,12 @@ var errInjected = errors.New("faultdb: injected write error")
 // would leave), and can fail chosen boundaries with an error (the write is
 // then not forwarded).
 type FaultDB struct {
-	inner  sortedkv.Database
-	n      int              // boundaries attempted so far (1-based numbering)
-	failAt map[int]struct{} // boundaries that fail
-	fired  int
-	hook   func(k int, failed bool)
+	inner   sortedkv.Database
+	n       int              // boundaries attempted so far (1-based numbering)
+	failAt  map[int]struct{} // boundaries that fail
+	failRel int              // >0: the failRel-th boundary from now fails (then disarmed)
+	fired   int
+	hook    func(k int, failed bool)
 }
 
 var _ sortedkv.Database = (*FaultDB)(nil)
@@ -43,7 +44,12 @@ var _ sortedkv.Database = (*FaultDB)(nil)
 func (d *FaultDB) boundary(apply func() error) error {
 	d.n++
 	k := d.n
-	if _, f := d.failAt[k]; f {
+	rel := false
+	if d.failRel > 0 {
+		d.failRel--
+		rel = d.failRel == 0
+	}
+	if _, f := d.failAt[k]; f || rel {
 		d.fired++
 		if d.hook != nil {
 			d.hook(k, true)
